@@ -1364,6 +1364,8 @@ def cases(tier, seed):
             extra = (6 if n == 4 else 3) if thorough else (1 if n == 4 else 0)
             for _ in range(extra):
                 yield {"kind": "keyset", "keys": rng.sample(pool, n), "forms": forms, "fams": fams, "cli": thorough}
+    yield {"kind": "family_consistency"}
+    yield {"kind": "cb_v1_zero_tail"}
     # directed witnesses (deterministic in every run): bytearray input and a CA `Certificate` object at every position
     for keys in (["rsa2048_0", "rsa2048_1"], ["p256_0", "p256_1", "p256_2", "p256_3"], ["p521_0", "p521_1"]):
         yield {"kind": "keyset", "keys": keys, "forms": 99, "fams": 1, "cli": False,
@@ -1428,12 +1430,84 @@ def cases(tier, seed):
         yield {"kind": "process", "k": k, "n": 40 if thorough else 24}
 
 
+def run_cb_v1_zero_tail(case, ctx) -> None:
+    """A certificate whose own DER ends in a zero byte (1 in 256) and whose length is no multiple of four: in the block it
+    is followed by zero padding, and the block must still come back unchanged."""
+    from spsdk.utils.crypto.cert_blocks import CertBlockV1
+
+    name = "rsa2048_1"
+    km = KM.pool(name, ctx.workdir)
+    priv = load_pool_private(name)
+    der = None
+    for serial in range(0x9000, 0x9000 + 4000):
+        cand = make_cert(priv, f"tail-{serial}", ca=False, serial=serial)
+        if cand[-1] == 0 and len(cand) % 4:
+            der = cand
+            break
+    if der is None:
+        raise core.Inconclusive("no certificate ending in a zero byte found")
+    st, res = attempt(lambda: (lambda cb: (cb.add_certificate(der), cb.set_root_key_hash(0, ref.key_hash(km.key)), cb.export())[2])(CertBlockV1(build_number=7)))
+    if st != "ok":
+        ctx.violation("cb-v1/zero-tail-certificate:build-" + st, {"error": core.exc_brief(res), "der_len": len(der)})
+        return
+    data = res
+    st, back = attempt(lambda: CertBlockV1.parse(data).export())
+    ctx.count("cb_v1_zero_tail")
+    if st != "ok":
+        ctx.violation("cb-v1/own-export-not-parsable:certificate-ends-in-zero-byte", {"error": core.exc_brief(back), "der_len": len(der), "der_tail": der[-8:]})
+    elif back != data:
+        ctx.violation("cb-v1/parse-export-changes-block:certificate-ends-in-zero-byte", {"der_len": len(der), "first_diff": next((i for i, (a, b) in enumerate(zip(back, data)) if a != b), -1)})
+    else:
+        ctx.ok(["cb_v1", "zero-tail-certificate"], sample={"der_len": len(der), "der_tail": der[-4:]})
+
+
+def run_family_consistency(case, ctx) -> None:
+    """Every family x revision: the value `Rot` (and so `nxpcrypto rot`) reports is the root-of-trust value of the certificate
+    block CLASS the family's images carry (version 1 or 2.1) - decided by the classes' own family lists, not by the
+    `rot_type` line of the same data file."""
+    from spsdk.utils.crypto.cert_blocks import CertBlock, CertBlockV1, CertBlockV21
+    from spsdk.utils.crypto.rot import Rot
+    from spsdk.utils.database import DatabaseManager, get_device, get_families
+
+    rng = ctx.rng
+    for fam in sorted(get_families(DatabaseManager.CERT_BLOCK)):
+        try:
+            cls = CertBlock.get_cert_block_class(fam)
+        except Exception:  # pylint: disable=broad-except
+            continue
+        if cls not in (CertBlockV1, CertBlockV21):
+            continue
+        kind = "rsa2048" if cls is CertBlockV1 else core.pick(rng, ["p256", "p256", "p384"])
+        n = core.pick(rng, [1, 2, 3])
+        kms = [KM.pool(x, ctx.workdir) for x in rng.sample(pki.names(kind), n)]
+        keys = [k.key for k in kms]
+        want = ref.v1_rkth(keys) if cls is CertBlockV1 else ref.v21_rkth(keys)
+        for rev in ["latest"] + [r for r in get_device(fam).revisions.revision_names() if rng.random() < 0.3]:
+            st, got = attempt(lambda: Rot(fam, rev, [k.get("pub.pem:path") for k in kms]).calculate_hash())
+            ctx.count("family_class_consistency")
+            if st == "refused":
+                ctx.refused(["family-consistency", cls.__name__, kind], f"{fam}/{rev}: {core.exc_brief(got)}")
+                ctx.violation("rot/refuses-the-keys-of-the-family's-certificate-block-class",
+                              {"family": fam, "revision": rev, "class": cls.__name__, "keys": [k.name for k in kms], "error": core.exc_brief(got)})
+            elif st == "crash":
+                ctx.violation(f"rot/escape:{type(got).__name__}", {"family": fam, "revision": rev, "exception": core.exc_brief(got)})
+            elif got != want:
+                ctx.violation("rot/differs-from-the-value-of-the-family's-certificate-block-class",
+                              {"family": fam, "revision": rev, "class": cls.__name__, "keys": [k.name for k in kms], "rot": got, "class_value": want})
+            else:
+                ctx.ok(["family-consistency", cls.__name__, kind, n], n=1, sample={"family": fam, "revision": rev})
+
+
 def run_case(case, ctx):
     kind = case["kind"]
     if kind == "keyset":
         return run_keyset(case, ctx)
     if kind == "lz":
         return run_lz(case, ctx)
+    if kind == "family_consistency":
+        return run_family_consistency(case, ctx)
+    if kind == "cb_v1_zero_tail":
+        return run_cb_v1_zero_tail(case, ctx)
     if kind == "cb_v1":
         return run_cb_v1(case, ctx)
     if kind == "cb_v21":
